@@ -463,3 +463,70 @@ def ob_recovered_run_same_execution(pa: int, pb: int, k: int) -> bool:
     bad = _whole_scenario(pa, pb, k)
     _debug(f"whole pa={pa} pb={pb} k={k}", bad)
     return not bad
+
+
+# ----------------------------------------------------------------------------------------------- long journals
+import llama_agents.dbos.journal.crud as _crud27  # noqa: E402
+from llama_agents.dbos.journal.task_journal import TaskJournal as _TaskJournal27  # noqa: E402
+from vlib.h_stores import pick_int as _pick_int27, untraced as _untraced27  # noqa: E402
+
+
+def _sizes27() -> List[int]:
+    """journal lengths to read back: small ones, and every length around a multiple of any size-like integer constant of the crud module (a
+    page / batch size, if the reader has one) and around 256 / 500 / 1000"""
+    consts = sorted({v for k, v in vars(_crud27).items() if isinstance(v, int) and not isinstance(v, bool) and 2 <= v <= 2000})
+    out = {1, 2, 3}
+    for p in consts + [256, 500, 1000]:
+        for m in (1, 2):
+            out.update({m * p - 1, m * p, m * p + 1, m * p + 2})
+    return sorted(x for x in out if 1 <= x <= 2100)
+
+
+_N27 = _sizes27()
+NSEL27 = len(_N27)
+
+
+@obligation(quick=300, thorough=600,
+            what="a LONG journal (a run that processed hundreds of completions before the process stopped): the recovery's TaskJournal.load() "
+                 "over the real SqliteJournalCrud hands back every recorded completion exactly once, in recorded order (neighbouring entries "
+                 "differ, so a skipped, repeated or shifted entry is a different completion order); the last three entries are written through "
+                 "the real TaskJournal.record, the bulk before them is inserted directly (the writer is covered by the other obligations)",
+            bounds={"journal length": "1..3 and around 1x / 2x of {256, 500, 1000} and of every size-like integer constant of the crud module"})
+def ob_long_journal_read_back(sel: int) -> bool:
+    """
+    pre: 0 <= sel < NSEL27
+    post: _
+    """
+    n = _N27[_pick_int27(sel, 0, NSEL27 - 1)]
+    with _untraced27():
+        keys = ["%s:%d" % ("ab"[i % 2], i) for i in range(n)]
+        with TmpDir() as d:
+            path = os.path.join(d, "dbos.sqlite")
+            _make_db(path)
+            bulk = max(0, n - 3)
+            conn = sqlite3.connect(path)
+            try:
+                conn.executemany("INSERT INTO workflow_journal (run_id, seq_num, task_key) VALUES (?, ?, ?)", [(RUN, i, keys[i]) for i in range(bulk)])
+                conn.executemany("INSERT INTO workflow_journal (run_id, seq_num, task_key) VALUES (?, ?, ?)", [("other", i, "z:%d" % i) for i in range(3)])
+                conn.commit()
+            finally:
+                conn.close()
+
+            async def main() -> bool:
+                writer = _TaskJournal27(RUN, _crud27.SqliteJournalCrud(path))
+                await writer.load()
+                if writer._entries != keys[:bulk]:
+                    return False
+                while writer.is_replaying():
+                    writer.advance()
+                for k in keys[bulk:]:
+                    await writer.record(k)
+                reader = _TaskJournal27(RUN, _crud27.SqliteJournalCrud(path))
+                await reader.load()
+                got = []
+                while reader.is_replaying():
+                    got.append(reader.next_expected_key())
+                    reader.advance()
+                return got == keys
+
+            return MiniLoop().run_until_complete(main())
